@@ -184,6 +184,21 @@ func (e *TCPEnv) SvcConfigVariant(k int) *service.Config {
 	return cfg
 }
 
+// SvcConfigHC: the service configuration with a different health-check section (interval lengthened by k x 100 ms; a
+// section is added when there was none) and nothing else changed.
+func (e *TCPEnv) SvcConfigHC(k int) *service.Config {
+	saved := e.Cfg.HC
+	h := HCCfg{IntervalMs: 2000, TimeoutMs: 1000, Fall: 2, Rise: 2}
+	if saved != nil {
+		h = *saved
+	}
+	h.IntervalMs += 100 * k
+	e.Cfg.HC = &h
+	cfg := e.svcConfig()
+	e.Cfg.HC = saved
+	return cfg
+}
+
 func (e *TCPEnv) Start() {
 	e.SvcCfg = e.svcConfig()
 	var hs []*host.Host
